@@ -48,8 +48,10 @@ Definition r_authn (a : IdPModel.assertion) : node :=
       El NS_A "AuthnContext" [] [El NS_A "AuthnContextClassRef" [] [Txt (a_class_ref a)]]].
 
 (* AttributeStatement / Attribute / AttributeValue *)
+(* AttributeValue.Element: the NameID child is added, then SetText puts the text in front of it *)
 Definition r_attrvalue (v : attrvalue) : node :=
-  El NS_A "AttributeValue" [("type", av_type v)] [Txt (av_value v)].
+  El NS_A "AttributeValue" [("type", av_type v)]
+     (Txt (av_value v) :: match av_nameid v with Some n => [r_nameid n] | None => [] end).
 Definition r_attribute (x : attribute) : node :=
   El NS_A "Attribute"
      (opt_attr "FriendlyName" (at_friendly x) ++ opt_attr "Name" (at_name x) ++ opt_attr "NameFormat" (at_format x))
